@@ -48,6 +48,9 @@ def check(ck):
     with ck.rule("R6"):
         rule_tables(ck, repo, w)
         values_of_correct_type_table(ck, repo)
+        # what the rules judge a document against is the schema with *every* extension applied
+        from .c11 import extension_rules
+        extension_rules(ck, repo)
         # 5.5.2.3 intersects possible-type sets: they must hold every (extension-added) member
         from .c03 import possible_type_sets
         possible_type_sets(ck, repo)
